@@ -53,6 +53,17 @@ case "$ID" in
     ;;
 esac
 
+# Safety net: a change that makes the library allocate without end (an enumeration or a formatting loop that never
+# stops while its output is collected) must end as a failed allocation inside the monitored process - which the
+# supervisor sees as a crash of the case in flight - and not as the kernel's out-of-memory killer picking victims on
+# the machine. Soft cap on the address space: 60 % of the machine's memory (the checks need a few GB at most).
+if [ -z "${VERIF_NO_MEMCAP:-}" ]; then
+  CAP_KB=$(awk '/^MemTotal:/ {print int($2 * 0.6)}' /proc/meminfo 2>/dev/null)
+  if [ -n "$CAP_KB" ] && [ "$CAP_KB" -gt 8000000 ]; then
+    ulimit -S -v "$CAP_KB" 2>/dev/null || true
+  fi
+fi
+
 if [ "$MODE" = "--replay" ]; then
   exec "$VERIF" replay "${3:?replay path}"
 fi
